@@ -95,6 +95,24 @@ def run(ck, facts):
                 g = guarded_by(m, bb, lambda s: (sym_field_of(s) or (None, None))[1] == "ptr" and sym_field_of(s)[0] == root, want_null=False)
                 ck.expect(g, "R1", key + "/null-guard", "dominated by the non-null edge of ptr.is_null()",
                           "slice reconstruction from %s is not guarded by `%s.is_null()` (NULL+0 views must normalise to the empty slice, and only NULL may be replaced)" % (sym_show(a[0]), sym_show(a[0])), where)
+                # ... and ONLY NULL may be replaced: a return path that skips the reconstruction must have taken the null edge
+                ns_ = null_switches(m)
+                skipping = []
+                raw_blocks = {b2 for b2, t2 in m.calls() if RAW_RE.search(C.mir_callee(t2) or "")}
+                for r_ in m.cfg.returns():
+                    for pth in m.paths(0, r_):
+                        if raw_blocks & set(pth):
+                            continue
+                        took_null = False
+                        for x_, y_ in zip(pth, pth[1:]):
+                            if x_ in ns_:
+                                tested, neg = ns_[x_]
+                                if edge_nonzero(m, x_, y_) != neg:
+                                    took_null = True
+                        if not took_null:
+                            skipping.append(pth)
+                ck.expect(not skipping, "R1", key + "/empty-only-on-null", "every path that skips the reconstruction took the ptr.is_null() edge",
+                          "a non-null view can be replaced by the canonical empty slice (path %s avoids both the reconstruction and the null edge): the pointer of a zero-length sub-slice is lost" % (skipping[:1],), where)
                 continue
             # null-branch dangling pointer
             p0 = sym_strip(a[0])
